@@ -105,6 +105,15 @@ def _module_constant(module, name):
     if tree is None:
         return None
     hits = [st.value for st in tree.body if isinstance(st, ast.Assign) and len(st.targets) == 1 and isinstance(st.targets[0], ast.Name) and st.targets[0].id == name]
+    for st in tree.body:
+        # `A, B, C = range(3)` / `A, B = "a", "b"`: the member of the unpacked value at the position of the name
+        if isinstance(st, ast.Assign) and len(st.targets) == 1 and isinstance(st.targets[0], (ast.Tuple, ast.List)) \
+                and all(isinstance(t, ast.Name) for t in st.targets[0].elts):
+            for k, t in enumerate(st.targets[0].elts):
+                if t.id == name:
+                    node = ast.Subscript(value=ast.Call(func=ast.Name(id="list", ctx=ast.Load()), args=[st.value], keywords=[]),
+                                         slice=ast.Constant(value=k), ctx=ast.Load())
+                    hits.append(ast.fix_missing_locations(ast.copy_location(node, st)))
     return hits[0] if len(hits) == 1 else None
 
 
@@ -126,6 +135,95 @@ class Closure:
 
     def __repr__(self):
         return "<closure %s>" % getattr(self.node, "name", "lambda")
+
+
+def _own_nodes(stmts):
+    """nodes of a function body, nested function definitions and lambdas left out"""
+    skip = (ast.FunctionDef, ast.AsyncFunctionDef, ast.Lambda, ast.ClassDef)
+    stack = [n for n in stmts if not isinstance(n, skip)]
+    while stack:
+        n = stack.pop()
+        yield n
+        for c in ast.iter_child_nodes(n):
+            if not isinstance(c, (ast.FunctionDef, ast.AsyncFunctionDef, ast.Lambda, ast.ClassDef)):
+                stack.append(c)
+
+
+_YIELD_CACHE = {}
+
+
+def _has_yield(stmts):
+    if not stmts:
+        return False
+    k = id(stmts[0])
+    if k not in _YIELD_CACHE:
+        _YIELD_CACHE[k] = (stmts[0], any(isinstance(n, (ast.Yield, ast.YieldFrom)) for n in _own_nodes(stmts)))
+    return _YIELD_CACHE[k][1]
+
+
+def _generator_effect(stmts):
+    """first statement of a generator body that does more than read, compute locals and yield (None: none)"""
+    for n in _own_nodes(stmts):
+        if isinstance(n, ast.Expr) and isinstance(n.value, ast.Call) and call_name(n.value) != "print":
+            return n
+        if isinstance(n, (ast.Assign, ast.AugAssign, ast.AnnAssign)):
+            for t in (n.targets if isinstance(n, ast.Assign) else [n.target]):
+                if any(isinstance(x, (ast.Attribute, ast.Subscript)) for x in ast.walk(t)):
+                    return n
+        if isinstance(n, (ast.Global, ast.Nonlocal, ast.Delete)):
+            return n
+    return None
+
+
+_STRICT_CONSUMERS = {"sum", "list", "tuple", "sorted", "max", "min", "set", "frozenset", "dict", "join", "extend", "array", "fromkeys", "update", "len"}
+
+
+class GenObj:
+    """The value of a call of a generator function.  Its body is run -- once, to the end -- when the value is first iterated; a second iteration
+    yields nothing, as with a real generator.  Running it to the end at that moment is what Python does when the consumer is a function that
+    exhausts its argument before doing anything else (sum, list, sorted ...); when the consumer is a loop, it is the same thing as long as the
+    generator only reads (a generator with effects of its own consumed by a loop is outside the fragment: the interleaving is not modelled)."""
+
+    def __init__(self, interp, stmts, effect):
+        self.interp, self.stmts, self.effect = interp, stmts, effect
+        self.consumed = False
+
+    def take(self, consumer):
+        if self.consumed:
+            return []
+        self.consumed = True
+        sub = self.interp
+        sub.steps = consumer.steps
+        prev = sub.__dict__.get("_yield_sink")
+        sub._yield_sink = []
+        try:
+            try:
+                sub._block(self.stmts)
+            except _Return:
+                pass
+            items = sub._yield_sink
+        finally:
+            sub._yield_sink = prev
+            consumer.steps = sub.steps
+        if sub is not consumer:
+            for k0, v0 in sub.env.items():
+                if "." in k0:
+                    consumer.env[k0] = v0
+        return items
+
+
+class CountObj:
+    """itertools.count(start, step)"""
+
+    def __init__(self, start=0, step=1):
+        self.n, self.step = start, step
+
+
+class IterObj:
+    """iter(<finite iterable>): what has not been taken yet"""
+
+    def __init__(self, items):
+        self.items = list(items)
 
 
 class _Return(Exception):
@@ -199,9 +297,15 @@ class IndexInterp:
             return [self.ev(x) for x in e.elts]
         if isinstance(e, ast.Set):
             return [self.ev(x) for x in e.elts]          # membership tests and (order-insensitive) uses only
-        if isinstance(e, ast.Dict) and all(k is not None for k in e.keys):
+        if isinstance(e, ast.Dict):
             out = {}
             for k, v in zip(e.keys, e.values):
+                if k is None:
+                    d0 = self.ev(v)          # {**a, **b}
+                    if not isinstance(d0, dict):
+                        raise AnalysisError("`**` of something that is not a dict in `%s`" % src(e)[:60])
+                    out.update(d0)
+                    continue
                 kk = self.ev(k)
                 try:
                     hash(kk)
@@ -499,6 +603,16 @@ class IndexInterp:
                 self._comp(gens, k + 1, emit)
 
     def _iterate(self, v, node):
+        if isinstance(v, IterObj):
+            items, v.items = v.items, []
+            return items
+        if isinstance(v, CountObj):
+            raise AnalysisError("iteration over an endless counter in `%s`" % src(node)[:60])
+        if isinstance(v, GenObj):
+            if v.effect is not None and not (isinstance(node, ast.Call) and call_name(node) in _STRICT_CONSUMERS):
+                raise AnalysisError("generator function with an effect of its own (`%s`) consumed step by step: the interleaving is outside the "
+                                    "index-program fragment" % norm_stmt(v.effect)[:50])
+            return v.take(self)
         if isinstance(v, SymObj) and getattr(v, "nt_fields", None) is not None:
             return [v.attrs[f0] for f0 in v.nt_fields]
         if isinstance(v, dict):
@@ -584,6 +698,41 @@ class IndexInterp:
         args = self.call_args(e)
         kw = {k.arg: self.ev(k.value) for k in e.keywords if k.arg}
         plain = isinstance(e.func, ast.Name) or (isinstance(e.func, ast.Attribute) and dotted(e.func.value) in ("itertools", "np", "numpy"))
+        if plain and nm in _STRICT_CONSUMERS and any(isinstance(a0, GenObj) for a0 in args):
+            args = [self._iterate(a0, e) if isinstance(a0, GenObj) else a0 for a0 in args]          # the consumer exhausts the generator first
+        if nm == "count" and len(args) <= 2 and all(isinstance(a0, int) for a0 in args) and \
+                (isinstance(e.func, ast.Name) or dotted(e.func.value) == "itertools") and not (isinstance(e.func, ast.Name) and "count" in self.env):
+            return CountObj(*args, **{k0: v0 for k0, v0 in kw.items() if k0 in ("start", "step") and isinstance(v0, int)})
+        if plain and nm == "iter" and len(args) == 1:
+            return args[0] if isinstance(args[0], (IterObj, CountObj)) else IterObj(self._iterate(args[0], e))
+        if plain and nm == "next" and 1 <= len(args) <= 2 and isinstance(args[0], (CountObj, IterObj, GenObj)):
+            it0 = args[0]
+            if isinstance(it0, CountObj):
+                v0 = it0.n
+                it0.n += it0.step
+                return v0
+            if isinstance(it0, GenObj):
+                raise AnalysisError("`%s`: a generator function advanced step by step is outside the index-program fragment" % src(e)[:50])
+            if it0.items:
+                return it0.items.pop(0)
+            if len(args) == 2:
+                return args[1]
+            raise ProgramRaise("StopIteration", "`%s` on an exhausted iterator" % src(e)[:50])
+        if plain and nm in ("zip", "map") and any(isinstance(a0, CountObj) for a0 in args):
+            finite = [len(self._iterate(a0, e)) if not isinstance(a0, (CountObj, GenObj, IterObj)) else None for a0 in args[(1 if nm == "map" else 0):]]
+            if any(k0 is None for k0, a0 in zip(finite, args[(1 if nm == "map" else 0):]) if not isinstance(a0, CountObj)) or not [k0 for k0 in finite if k0 is not None]:
+                raise AnalysisError("`%s`: an endless counter next to a one-shot iterator" % src(e)[:50])
+            n0 = min(k0 for k0 in finite if k0 is not None)
+            new_args = []
+            seqs0 = args[(1 if nm == "map" else 0):]
+            first_short = min(k1 for k1, k0 in enumerate(finite) if k0 == n0)
+            for k1, a0 in enumerate(seqs0):
+                if isinstance(a0, CountObj):
+                    new_args.append([a0.n + k0 * a0.step for k0 in range(n0)])
+                    a0.n += (n0 + (1 if k1 < first_short else 0)) * a0.step          # the round that finds the shortest exhausted has advanced it once more
+                else:
+                    new_args.append(a0)
+            args = args[:(1 if nm == "map" else 0)] + new_args
         if plain and nm == "range" and all(isinstance(a, int) for a in args):
             return list(range(*args))
         if plain and nm == "enumerate":
@@ -963,7 +1112,10 @@ class IndexInterp:
         kws = {k.arg: self.ev(k.value) for k in e.keywords}
         if len(vals) > len(ps) or any(k0 not in ps for k0 in kws):
             return NotImplemented
-        env2 = {k0: v0 for k0, v0 in self.env.items() if "." in k0 or is_token(v0) and v0[0] == "type"}
+        tmod = getattr(target, "_module", None) or module
+        mod_names = set(getattr(tmod, "imports", {})) | set(getattr(tmod, "globals", {})) if tmod is not None else set()
+        # the caller's view of attributes, of types, and of the module-level objects of the helper's module (a model of `null_point`, say)
+        env2 = {k0: v0 for k0, v0 in self.env.items() if "." in k0 or (is_token(v0) and v0[0] == "type") or k0 in mod_names}
         if recv_self is not None and recv_self != "<dotted self>":
             env2[(a.posonlyargs + a.args)[0].arg] = recv_self
         defaults = dict(zip(ps[len(ps) - len(a.defaults):], a.defaults))
@@ -1057,6 +1209,8 @@ class IndexInterp:
             if n0 is not None and getattr(n0._module, "repo", None) is not None:
                 c0 = getattr(n0, "_cls", None)
                 self.home = (n0._module.repo, n0._module, c0.name if c0 is not None else None)
+        if _has_yield(stmts):
+            return GenObj(self, stmts, _generator_effect(stmts))          # a generator function: its body runs when somebody iterates
         try:
             self._block(stmts)
         except _Return as r:
@@ -1155,6 +1309,11 @@ class IndexInterp:
                 self.events.append((c, self.ev(c)))
             elif isinstance(s, ast.Expr) and isinstance(s.value, ast.Constant):
                 continue
+            elif isinstance(s, ast.Expr) and isinstance(s.value, (ast.Yield, ast.YieldFrom)) and self.__dict__.get("_yield_sink") is not None:
+                if isinstance(s.value, ast.Yield):
+                    self._yield_sink.append(self.ev(s.value.value) if s.value.value is not None else None)
+                else:
+                    self._yield_sink.extend(self._iterate(self.ev(s.value.value), s.value))
             elif isinstance(s, ast.Raise):
                 if s.exc is None:
                     cur = getattr(self, "_handling", None)
